@@ -708,6 +708,14 @@ impl Mp4TrackWriter {
                         "sequence parameter set is shorter than its 4-byte header",
                     ));
                 }
+                // avcC stores each parameter set behind a 16-bit length
+                if avc_config.seq_param_set.len() > u16::MAX as usize
+                    || avc_config.pic_param_set.len() > u16::MAX as usize
+                {
+                    return Err(Error::InvalidData(
+                        "parameter set is longer than the 65535 bytes avcC can hold",
+                    ));
+                }
                 trak.tkhd.set_width(avc_config.width);
                 trak.tkhd.set_height(avc_config.height);
 
